@@ -1,6 +1,9 @@
 import GramModel.Check
 import GramModel.Lemmas.StoreCtx
 import GramModel.Lemmas.StoreMono
+import GramModel.Oracle
+import GramModel.Typing
+import GramModel.Lemmas.CheckComplete
 
 /-!
 # C05 — fully annotated well-typed programs are accepted; elaboration only fills holes
@@ -44,3 +47,134 @@ def C05_cutoff_witness_stmt : Prop :=
    | .ok (e, ty) s => s.nerrs == 0 && e == C05_w_cutoff && ty == .int
    | _ => false) = true
 theorem C05_cutoff_witness : C05_cutoff_witness_stmt := by unfold C05_cutoff_witness_stmt; decide
+
+/-! ## Completeness on fully annotated programs, relative to the independent checker -/
+
+/-- **C05 for the model, as first stated — FALSE** (see `C05_checker_complete_holefree_refuted`).
+If the independent checker accepts a closed, hole-free (fully annotated)
+program — so that, by `C03_infer_sound`, the program is well typed under the declarative rules — then,
+given enough fuel, the model of gram's checker accepts it too: no diagnostic, the elaboration is the
+program itself, and the reported type, zonked, is hole-free and convertible with the type the independent
+checker computed.  (The hypothesis is an *algorithmic* acceptance on purpose: for a calculus with
+`type : type` and general recursion no checker accepts every declaratively well-typed program.)
+
+What is wrong: (1) *divergence* — gram's application rule unifies `Π (_ : ?dom). ?cod` with the type of
+the function, and `unify` weak-head normalises the **domain** before it solves `?dom`; the independent
+checker (and the declarative rules) never normalise the domain, they compare it with the argument's type,
+and two syntactically equal types are equal without normalising.  So a function whose parameter type has
+no weak head normal form is accepted by the rules but sends gram into an endless unfolding
+(`C05_loop_witness`; on the real binary: stack overflow).  (2) *implicit parameters* — the application
+rule builds an **explicit** `Π`, so a function with an implicit parameter can never be applied
+(`C05_implicit_witness`), whereas the rules do not look at the flag. -/
+def C05_checker_complete_holefree_unrestricted : Prop :=
+  ∀ (g : Nat) (t T : Tm), t.holeFree = true → wellScoped 0 t = true → inferX g [] [] t = .ok T →
+    ∃ f, ∀ f', f ≤ f' → ∃ (ty zty : Tm) (s : St),
+      inferS f' t {} = .ok (t, ty) s ∧ s.nerrs = 0 ∧ zonk f' s.store ty = some zty ∧
+      zty.holeFree = true ∧ Conv [] zty T
+
+/-- `T : (int -> type) = (n : int) => T n`
+    `(f : T 0 -> int) => (y : T 0) => f y` -/
+def C05_w_loop : Tm :=
+  .letg (.cons 1 (.pi 0 false .int .type) (.lam 2 false .int (.app (.var 1 1) (.var 2 0))) .nil)
+    (.lam 3 false (.pi 0 false (.app (.var 1 0) (.lit 0)) .int)
+      (.lam 4 false (.app (.var 1 1) (.lit 0)) (.app (.var 3 1) (.var 4 0))))
+
+/-- The witness is hole-free, closed, without implicit binders, accepted by the independent checker
+(with type `ds; (f : T 0 -> int) -> (y : T 0) -> int`), and the model of gram's checker runs out of
+fuel on it **at every fuel**: `gram check` does not terminate (real binary: "thread has overflowed
+its stack", exit 134). -/
+def C05_loop_witness_stmt : Prop :=
+  C05_w_loop.holeFree = true ∧ wellScoped 0 C05_w_loop = true ∧ CCPar.explicitT C05_w_loop = true ∧
+  (∃ T, inferX 11 [] [] C05_w_loop = .ok T) ∧ ∀ f, inferS f C05_w_loop {} = .fuel
+theorem C05_loop_witness : C05_loop_witness_stmt :=
+  ⟨by decide, by decide, by decide, CheckDiverge.wLoop_oracle, CheckDiverge.wLoop_fuel⟩
+
+theorem C05_checker_complete_holefree_refuted : ¬ C05_checker_complete_holefree_unrestricted := by
+  intro h
+  obtain ⟨T, hT⟩ := CheckDiverge.wLoop_oracle
+  obtain ⟨f, hf⟩ := h 11 CheckDiverge.wLoop T CheckDiverge.wLoop_holeFree CheckDiverge.wLoop_scoped hT
+  obtain ⟨ty, zty, s, h1, _⟩ := hf f (Nat.le_refl _)
+  exact CheckDiverge.wLoop_never_ok f _ _ h1
+
+/-! ### never a wrong rejection -/
+
+/-- "Whatever the fuel, the run either runs out of fuel or accepts" — **FALSE** without a restriction
+on implicit binders (`C05_checker_no_wrong_rejection_refuted`). -/
+def C05_checker_no_wrong_rejection_unrestricted : Prop :=
+  ∀ (g : Nat) (t T : Tm), t.holeFree = true → wellScoped 0 t = true → inferX g [] [] t = .ok T →
+    ∀ f, inferS f t {} = .fuel ∨ ∃ (ty : Tm) (s : St), inferS f t {} = .ok (t, ty) s ∧ s.nerrs = 0
+
+/-- `({a : type} => a) int` : accepted by the independent checker (type `type`), rejected by gram
+("This has type `{type} -> type` when a function was expected"): gram's application rule unifies the
+function's type with an *explicit* `Π`, and there is no other way to apply a function, so a function with
+an implicit parameter can never be applied. -/
+def C05_w_implicit : Tm := .app (.lam 1 true .type (.var 1 0)) .int
+def C05_implicit_witness_stmt : Prop :=
+  C05_w_implicit.holeFree = true ∧ wellScoped 0 C05_w_implicit = true ∧
+  inferX 3 [] [] C05_w_implicit = .ok .type ∧
+  (match inferS 5 C05_w_implicit {} with
+   | .ok _ s => s.nerrs == 1
+   | _ => false) = true
+theorem C05_implicit_witness : C05_implicit_witness_stmt :=
+  ⟨CheckComplete.wImplicit_props.1, CheckComplete.wImplicit_props.2.1,
+    CheckComplete.wImplicit_props.2.2, CheckComplete.wImplicit_rejected⟩
+
+theorem C05_checker_no_wrong_rejection_refuted : ¬ C05_checker_no_wrong_rejection_unrestricted := by
+  intro h
+  have w := C05_implicit_witness
+  rcases h 3 C05_w_implicit .type w.1 w.2.1 w.2.2.1 5 with e | ⟨ty, s, e, hn⟩
+  · have := w.2.2.2
+    rw [e] at this
+    cases this
+  · have := w.2.2.2
+    rw [e] at this
+    simp only [beq_iff_eq] at this
+    omega
+
+/-- **C05 for the model: never a wrong rejection, only possibly divergence.**  If the independent
+checker accepts a closed, hole-free program without implicit binders (`CCPar.explicitT`: every `λ` and
+`Π` of the program is explicit), then at *every* fuel the model of gram's checker either runs out of
+fuel or accepts: it returns the program itself, reports no diagnostic, and the reported type is
+hole-free (so it is its own zonked form) and convertible with the type the independent checker
+computed.  In particular no `unify` call made while checking such a program ever answers `false`, and
+there is no panic.
+
+The proof (`Lemmas/CCPar.lean`, `CCJoin.lean`, `CCUnify.lean`, `CCGroup.lean`, `CheckComplete.lean`)
+goes through confluence of the conversion relation of `Typing.lean` (parallel reduction with complete
+developments, on erasures), stability of weak head normal forms under reduction, and a transfer of
+joinability from the body of a group to the closed group type. -/
+def C05_checker_no_wrong_rejection_stmt : Prop :=
+  ∀ (g : Nat) (t T : Tm), t.holeFree = true → wellScoped 0 t = true → CCPar.explicitT t = true →
+    inferX g [] [] t = .ok T →
+    ∀ f, inferS f t {} = .fuel ∨ ∃ (ty : Tm) (s : St), inferS f t {} = .ok (t, ty) s ∧ s.nerrs = 0 ∧
+      ty.holeFree = true ∧ zonk (ty.size + 1) s.store ty = some ty ∧ Conv [] ty T
+theorem C05_checker_no_wrong_rejection : C05_checker_no_wrong_rejection_stmt := by
+  intro g t T ht hw hx hX f
+  exact CheckComplete.checker_fuel_or_accept ht hw hx hX f
+
+/-- **The corrected completeness statement.**  With the two extra hypotheses that are both necessary
+(`C05_loop_witness`: termination; `C05_implicit_witness`: no implicit binders) — the program has no
+implicit binder and gram's checker terminates on it (answers at some fuel) — a program accepted by the
+independent checker is accepted by the model of gram's checker: no diagnostic, the elaboration is the
+program itself, the zonked type is hole-free and convertible with the independent checker's. -/
+def C05_checker_complete_holefree_fixed_stmt : Prop :=
+  ∀ (g : Nat) (t T : Tm), t.holeFree = true → wellScoped 0 t = true → CCPar.explicitT t = true →
+    inferX g [] [] t = .ok T → (∃ f, inferS f t {} ≠ .fuel) →
+    ∃ (f n : Nat) (ty zty : Tm) (s : St),
+      inferS f t {} = .ok (t, ty) s ∧ s.nerrs = 0 ∧ zonk n s.store ty = some zty ∧
+      zty.holeFree = true ∧ Conv [] zty T
+theorem C05_checker_complete_holefree_fixed : C05_checker_complete_holefree_fixed_stmt := by
+  intro g t T ht hw hx hX ⟨f, hf⟩
+  rcases CheckComplete.checker_fuel_or_accept ht hw hx hX f with e | ⟨ty, s, e, hn, hty, hz, c⟩
+  · exact (hf e).elim
+  · exact ⟨f, ty.size + 1, ty, ty, s, e, hn, hz, hty, c⟩
+
+/-- Inversion form, without the scoping hypothesis: any answer the checker gives on such a program
+is an acceptance. -/
+def C05_checker_answer_is_acceptance_stmt : Prop :=
+  ∀ (f g : Nat) (t T e ty : Tm) (s : St), t.holeFree = true → CCPar.explicitT t = true →
+    inferX g [] [] t = .ok T → inferS f t {} = .ok (e, ty) s →
+    e = t ∧ s.nerrs = 0 ∧ ty.holeFree = true ∧ Conv [] ty T
+theorem C05_checker_answer_is_acceptance : C05_checker_answer_is_acceptance_stmt := by
+  intro f g t T e ty s ht hx hX h
+  exact CheckComplete.checker_no_wrong_rejection ht hx hX h
